@@ -114,7 +114,7 @@ func (self *Administrator) SetParams(params FlapParams) error {
 	if (params.FlightInterval*2 >  params.TripLength) {
 		return EINVALIDFLAPPARAMS
 	}
-	if (params.Promises.Algo != paNone && params.Promises.MaxPoints <=0) {
+	if (params.Promises.Algo != paNone && params.Promises.MaxPoints < 2) {
 		return EINVALIDFLAPPARAMS
 	}
 	var bits int
